@@ -85,6 +85,10 @@ func (e *Subscription) Val() []byte {
 // decodeSubscription decodes the event
 func decodeSubscription(k string, v []byte) (e Subscription, err error) {
 	if len(v) > 0 {
+		if _, ok := message.FitsFields(v, 2); !ok { // the username and the channel
+			return e, errInvalidValue
+		}
+
 		err = binary.Unmarshal(v, &e)
 	}
 
